@@ -162,6 +162,8 @@ def build_precond(spec, Am, cplx):
         return None
     if k == "jacobi":
         return np.diag(1.0 / np.real(np.diag(Am))).astype(Am.dtype)
+    if k == "identity":
+        return np.eye(n, dtype=Am.dtype)
     rng = np.random.default_rng(spec["seed"])
     if k == "approxinv":             # (A + E)^-1 Hermitianised, ||E||_2 = rho * lambda_min(A)
         e = rng.standard_normal((n, n))
@@ -276,6 +278,12 @@ def _wrap(mat, form, col, n):
         return None
     if form == "linop":
         return sp.linop.MatMul([n, 1], mat)
+    if form == "alias":
+        return lambda v: v
+    if form == "Identity":
+        return sp.linop.Identity([n, 1] if col else [n])
+    if form == "copy":
+        return lambda v: v.copy()
     return lambda v: mat @ v
 
 
@@ -306,8 +314,12 @@ def st_matrix_pd(draw, n):
 
 @st.composite
 def st_precond(draw, allow_jacobi=True):
-    kinds = ["none", "none", "approxinv", "hpd"] + (["jacobi"] if allow_jacobi else [])
+    kinds = ["none", "none", "approxinv", "hpd", "identity"] + (["jacobi"] if allow_jacobi else [])
     k = draw(st.sampled_from(kinds))
+    if k == "identity":
+        # the identity preconditioner in the forms users write it: returning its ARGUMENT (lambda r: r), sigpy's
+        # Identity operator (also returns its input), or a fresh copy
+        return {"kind": k, "form": draw(st.sampled_from(["alias", "alias", "Identity", "copy"]))}
     if k == "approxinv":
         return {"kind": k, "rho": draw(st.sampled_from([0.01, 0.1, 0.5, 0.9])), "seed": draw(A.seeds)}
     if k == "hpd":
@@ -412,7 +424,9 @@ def check_case(case):
     if case.get("xlayout", "c") != "c":
         r.label("x-layout:" + case["xlayout"])
     Aop = _wrap(Am, case["Aform"], case["col"], n)
-    Pop = _wrap(Pm, case["Pform"], case["col"], n)
+    Pop = _wrap(Pm, case["P"].get("form") or case["Pform"], case["col"], n)
+    if case["P"].get("form"):
+        r.label("P-identity:" + case["P"]["form"])
     try:
         alg = sp.alg.ConjugateGradient(Aop, b_in, x, P=Pop, max_iter=max_iter, tol=tol)
     except Exception as e:
